@@ -248,17 +248,15 @@ class ProbabilisticNode(Node):
         # collect the surviving states first and rebuild the list once: removing from
         # the list while scanning it skips the element after each removed one, and
         # a second removal no longer finds its (already rescaled) tuple
-        removed_probability = 0
-        kept_states = []
-        for _next_state in self.next_states:
-            next_state = state_list[_next_state[NEXT_STATE_IDX]]
-            if next_state.reach_probability == 0:
-                removed_probability += _next_state[PROBABILITY]
-            else:
-                kept_states.append(_next_state)
+        kept_states = [
+            _next_state for _next_state in self.next_states
+            if state_list[_next_state[NEXT_STATE_IDX]].reach_probability != 0]
         if len(kept_states) != len(self.next_states):
+            # rescale by the surviving total itself: 1 - (removed probability) loses its
+            # accuracy when the surviving probabilities are tiny (cancellation)
+            kept_probability = sum(probability for probability, _ in kept_states)
             self.next_states = [
-                (probability / (1 - removed_probability), next_state_idx)
+                (probability / kept_probability, next_state_idx)
                 for probability, next_state_idx in kept_states]
 
     def remove_path(self, state_to_remove):
